@@ -120,6 +120,9 @@ def run_case(case: dict) -> CaseResult:
         tag = f"{main_name}#{len(env.tasks)}"
         t = env.spawn(tag, coro)
         others = []
+        if interfere and "+connect" in interfere["what"] and case.get("reconnect_in_on_stop"):
+            # the stop callback already reconnects in this history: one reconnect mechanism at a time
+            interfere = {**interfere, "what": interfere["what"].split("+")[0]}
         if interfere:
             async def later():
                 await asyncio.sleep(interfere["at"] / 64)
@@ -153,6 +156,17 @@ def run_case(case: dict) -> CaseResult:
                     if not t.done():
                         env.cancel(tag)
                     return "cancelled-it"
+                if w in ("force+connect", "disconnect+connect", "cancel+connect"):
+                    # abort the running call and start the next attempt the moment disconnect() has returned – before
+                    # the aborted call's own task has had a chance to unwind
+                    classes.add("reconnect_right_after_abort")
+                    if w == "cancel+connect" and not t.done():
+                        env.cancel(tag)
+                    await cli.disconnect(force=(w != "disconnect+connect"))
+                    env.tcp_script = [("ok", 4 * D)]
+                    set_device(None)
+                    await cli.connect(on_stop=on_stop, login=True)
+                    return "reconnected"
                 await cli.disconnect(force=(w == "force"))
             others.append((f"i:{interfere['what']}#{len(env.tasks)}", None))
             others[-1] = (others[-1][0], env.spawn(others[-1][0], later()))
@@ -167,7 +181,23 @@ def run_case(case: dict) -> CaseResult:
     def apply(order, what: str):
         """Update the model from call outcomes, in completion order."""
         for name, status, val in order:
-            if name.startswith(("i:cancel", "i:probe")):
+            if name.startswith(("i:cancel", "i:probe")) and "+connect" not in name:
+                continue
+            if name.startswith("i:") and "+connect" in name:
+                # disconnect() followed at once by a new connect(): the client was free, so the attempt must be accepted;
+                # it may fail only with a classified connection error
+                if status == "ok":
+                    model["s"] = "CONNECTED"
+                    model["dead_started"] = False
+                    stats["sessions"] += 1
+                elif isinstance(val, APIConnectionError) and "Already connected" not in str(val):
+                    model["s"] = "IDLE"
+                elif isinstance(val, APIConnectionError):
+                    viol.append(V("c19:wedged:start-refused-right-after-disconnect", repr(val)[:200]))
+                    model["s"] = "IDLE"
+                else:
+                    viol.append(V(f"c19:reconnect-after-abort:raised:{type(val).__name__}", f"connect() issued right after disconnect() returned raised {val!r}"))
+                    model["s"] = "IDLE"
                 continue
             if name.startswith("i:"):  # a disconnect()/force that returned
                 if status == "ok":
@@ -179,6 +209,8 @@ def run_case(case: dict) -> CaseResult:
             if status == "ok":
                 model["s"] = {"start": "STARTED", "finish": "CONNECTED", "connect": "CONNECTED"}[what]
                 model["dead_started"] = False
+            elif any(n.startswith("i:") and "+connect" in n for n, _s, _v in order):
+                pass  # the aborted call failing late says nothing about the attempt that replaced it
             else:
                 model["s"] = "IDLE"
                 model["dead_started"] = False
@@ -372,7 +404,7 @@ def run_case(case: dict) -> CaseResult:
 
 
 # ------------------------------------------------------------------ generators
-INTERFERE = st.one_of(st.none(), st.none(), st.builds(lambda w, a: {"what": w, "at": a}, st.sampled_from(["disconnect", "force", "cancel", "probe", "probe"]), st.sampled_from([0, 1, 2, 3, 4, 5, 6, 8, 12, 64 * 6])))
+INTERFERE = st.one_of(st.none(), st.none(), st.builds(lambda w, a: {"what": w, "at": a}, st.sampled_from(["disconnect", "force", "cancel", "probe", "probe", "force+connect", "disconnect+connect", "cancel+connect"]), st.sampled_from([0, 1, 2, 3, 4, 5, 6, 8, 12, 64 * 6])))
 DEVB = st.sampled_from([None, None, None, "badversion", "badpass", "silent", "eof", "garbage", "discreq"])
 
 
@@ -435,6 +467,12 @@ def enumerated(tier):
                 yield {"noise": noise, "rot": at, "steps": [{"op": "start", "tcp": "ok", "interfere": itf}] + second}
                 yield {"noise": noise, "rot": at + 9, "steps": [{"op": "connect", "tcp": "ok", "dev": None, "login": True, "interfere": itf}] + second}
                 yield {"noise": noise, "rot": at + 18, "steps": [{"op": "start", "tcp": "ok", "interfere": None}, {"op": "finish", "dev": None, "login": True, "interfere": itf}] + second}
+        for at in (0, 1, 2, 3, 4, 5, 6, 8):
+            for w in ("force+connect", "disconnect+connect", "cancel+connect"):
+                itf = {"what": w, "at": at}
+                yield {"noise": noise, "rot": at, "steps": [{"op": "start", "tcp": "ok", "interfere": itf}, {"op": "disconnect", "force": False}] + second}
+                yield {"noise": noise, "rot": at, "steps": [{"op": "connect", "tcp": "ok", "dev": None, "login": True, "interfere": itf}, {"op": "disconnect", "force": False}] + second}
+                yield {"noise": noise, "rot": at, "steps": [{"op": "start", "tcp": "ok", "interfere": None}, {"op": "finish", "dev": "silent", "login": True, "interfere": {"what": w, "at": at + 1}}, {"op": "disconnect", "force": True}] + second}
         for at in (0, 1, 2, 3, 4, 5, 6, 8):
             itf = {"what": "cancel", "at": at}
             yield {"noise": noise, "rot": at, "steps": [{"op": "connect", "tcp": "ok", "dev": None, "login": True, "interfere": itf}] + second}
